@@ -765,7 +765,7 @@ pub fn run(cx: &Cx) {
         if st.capped {
             all_complete = false;
         }
-        per_kind.insert(kind.name(), json!({"states": st.states, "transitions": st.transitions, "depth_completed": st.depth_completed, "capped": st.capped, "new_states_and_transitions_per_level": st.per_level}));
+        per_kind.insert(kind.name(), json!({"states": st.states, "transitions": st.transitions, "depth_completed": st.depth_completed, "capped": st.capped, "fixpoint_reached": st.per_level.last().map(|l| l.0 == 0).unwrap_or(false), "new_states_and_transitions_per_level": st.per_level}));
         memo.lock().unwrap().clear();
     }
     let floods: Vec<Value> = [1usize, 2, 64].iter().map(|cap| flood(cx, &s, *cap, if quick { 400 } else { 2000 })).collect();
